@@ -1,5 +1,6 @@
 """c01 — scheduler property; see sched_common.py."""
 import gen_common
+import coq_cases
 import sched_common
 
 DEP_FILES = ["SchedModel.v", "SchedLemmas.v", "SchedInv.v", "SchedInv2.v", "SchedProps.v", "SchedInv3.v", "SchedInv4.v", "SchedTheorems.v"]
@@ -8,6 +9,8 @@ PID = "C01"
 
 def run(chk):
     chk.recheck_proofs()
-    sched_common.apply(chk, PID, which=("full" if PID == "C19" else "core"))
+    s = sched_common.apply(chk, PID, which=("full" if PID == "C19" else "core"))
+    if s and s.get("coq_traces"):
+        coq_cases.check_sched(chk, s["coq_traces"])
     gen_common.apply(chk, PID)
     chk.assumptions += sched_common.ASSUMPTIONS.get(PID, []) + sched_common.ASSUMPTIONS["*"]
